@@ -776,6 +776,11 @@ def _decorate_inline(context, fn):
         def go(*args, **kw):
             return dec(context, *args, **kw)
 
+        try:
+            # a def nested in a call with content is found by its name
+            go.__name__ = render_fn.__name__
+        except TypeError:
+            pass
         return go
 
     return decorate_render
